@@ -317,6 +317,10 @@ sexp sexp_sort_x (sexp ctx, sexp self, sexp_sint_t n, sexp seq,
     scratch = sexp_make_vector(ctx, sexp_make_fixnum(sexp_vector_length(vec)), SEXP_VOID);
     len = sexp_vector_length(vec);
     if (sexp_not(key) && sexp_basic_comparator(less)) {
+      /* for > and >= sort ascending and reverse; reversing the input */
+      /* first as well keeps equal elements in their original order */
+      if (sexp_opcodep(less) && sexp_opcode_inverse(less))
+        sexp_vector_nreverse(ctx, vec);
       sexp_merge_sort(ctx, sexp_vector_data(vec), sexp_vector_data(scratch),
                       0, len-1);
       if (sexp_opcodep(less) && sexp_opcode_inverse(less))
